@@ -175,6 +175,41 @@ def test_string(inp):
     return None
 
 
+# --- geometry files ------------------------------------------------------------------------------------------
+
+
+def gen_file(tier, seed):
+    docs = [
+        {'type': 'Polygon', 'coordinates': [[[1.0000004, 2.0], [3.25, 2.0], [3.25, 4.123456789012], [1.0000004, 4.123456789012], [1.0000004, 2.0]]]},
+        {'type': 'Point', 'coordinates': [151.20000049, -33.86000051]},
+        {'type': 'MultiPolygon', 'coordinates': [[[[0.0, 0.0], [1e-7, 0.0], [1e-7, 1e-7], [0.0, 0.0]]], [[[5.5, 5.5], [6.1234567, 5.5], [6.1234567, 6.7654321], [5.5, 5.5]]]]},
+        {'type': 'Polygon', 'coordinates': [[[0, 0], [4, 4], [4, 0], [0, 4], [0, 0]]]},
+    ]
+    for k, doc in enumerate(docs):
+        for ext in ('.geojson', '.json'):
+            yield {'doc': doc, 'ext': ext, 'k': k}
+
+
+def test_file(inp):
+    """a geometry given as a file denotes exactly the geometry written in the file (every digit)"""
+    import tempfile
+    tmp = tempfile.mkdtemp(prefix='verif-c20-', dir=os.environ.get('VERIF_TMP'))
+    try:
+        path = os.path.join(tmp, f'shape{inp["k"]}{inp["ext"]}')
+        with open(path, 'w') as f:
+            json.dump(inp['doc'], f)
+        try:
+            got = geometry_argument(path)
+        except argparse.ArgumentTypeError as e:
+            return f'geometry_argument refused a valid GeoJSON file: {e}'
+        exp = shapely.geometry.shape(inp['doc'])
+        if got.wkb != exp.wkb:
+            return f'geometry_argument(file) = {got.wkt} but the file denotes {exp.wkt}'
+        return None
+    finally:
+        shutil.rmtree(tmp, ignore_errors=True)
+
+
 # --- end to end ----------------------------------------------------------------------------------------------
 
 E2E_SPECS = [
@@ -387,6 +422,9 @@ def key_string(inp, detail):
 
 
 CHECKS = [
+    Check('geometry_file', gen_file, test_file, key=lambda i, d: 'geometry-file',
+          space='4 GeoJSON documents (coordinates with up to 12 decimals, tiny and self-crossing rings) x {.geojson, .json}: the geometry read is bit for bit the one written',
+          bound='8 files'),
     Check('bounds_strings', gen_strings, test_string, key=key_string,
           space='bounds strings: every number form (signs, decimals, underscores, unicode digits, malformed) in every position, '
                 'separators with spaces/tabs/newlines, leading/trailing junk, 3/5 fields, GeoJSON text; + random compositions',
